@@ -61,16 +61,68 @@ func genRawSocket() {
 		}
 		// the outer loop receives from the channel; the inner loop is the retry loop
 		var outer, inner *ast.ForStmt
+		msgVar := ""
 		for _, st := range fd.Body.List {
 			if fs, ok := st.(*ast.ForStmt); ok {
 				outer = fs
+			}
+			// for msg := range mCh { ... } is the same loop: receive until the channel is closed
+			if rs, ok := st.(*ast.RangeStmt); ok && rs.Key != nil && rs.Value == nil && rs.Tok == token.DEFINE {
+				if id, ok := rs.Key.(*ast.Ident); ok {
+					msgVar = id.Name
+					outer = &ast.ForStmt{For: rs.For, Body: rs.Body}
+				}
 			}
 		}
 		if outer == nil {
 			problem("producer/rawSocket.go: inputMsg has no message loop")
 			continue
 		}
-		msgVar := ""
+		// a line built once per message, before the attempts: X := make([]byte, 0, n) / []byte{} ; X = append(X, msg...) ; X = append(X, '\n')
+		built := map[string][]string{}
+		for _, st := range outer.Body.List {
+			as, ok := st.(*ast.AssignStmt)
+			if !ok || len(as.Lhs) != 1 || len(as.Rhs) != 1 {
+				continue
+			}
+			lhs, ok := as.Lhs[0].(*ast.Ident)
+			if !ok {
+				continue
+			}
+			var eval func(e ast.Expr) ([]string, bool)
+			eval = func(e ast.Expr) ([]string, bool) {
+				t := strings.ReplaceAll(squash(exprString(e)), " ", "")
+				if strings.HasPrefix(t, "make([]byte,0") || t == "[]byte{}" || t == "[]byte(nil)" {
+					return []string{}, true
+				}
+				if id, ok := e.(*ast.Ident); ok {
+					if p, ok := built[id.Name]; ok {
+						return append([]string{}, p...), true
+					}
+				}
+				c, ok := e.(*ast.CallExpr)
+				if !ok || squash(exprString(c.Fun)) != "append" || len(c.Args) != 2 {
+					return nil, false
+				}
+				base, ok := eval(c.Args[0])
+				if !ok {
+					return nil, false
+				}
+				a := strings.ReplaceAll(squash(exprString(c.Args[1])), " ", "")
+				switch {
+				case c.Ellipsis.IsValid() && a == msgVar:
+					return append(base, "msg"), true
+				case !c.Ellipsis.IsValid() && (a == "'\\n'" || a == "10" || a == "byte('\\n')"):
+					return append(base, "nl"), true
+				}
+				return nil, false
+			}
+			if p, ok := eval(as.Rhs[0]); ok {
+				built[lhs.Name] = p
+			} else {
+				delete(built, lhs.Name)
+			}
+		}
 		for _, st := range outer.Body.List {
 			if as, ok := st.(*ast.AssignStmt); ok && len(as.Rhs) == 1 {
 				if u, ok := as.Rhs[0].(*ast.UnaryExpr); ok && u.Op == token.ARROW {
@@ -108,6 +160,7 @@ func genRawSocket() {
 			return true
 		})
 		// the write: the first call in the retry loop that involves the connection
+		lineVar := ""
 		wholeLine := func(c *ast.CallExpr) bool {
 			fn := squash(exprString(c.Fun))
 			switch {
@@ -118,6 +171,11 @@ func genRawSocket() {
 				return squash(exprString(c.Args[1])) == "string("+msgVar+")"
 			case fn == "rs.connection.Write" && len(c.Args) == 1:
 				a := strings.ReplaceAll(squash(exprString(c.Args[0])), " ", "")
+				if p, ok := built[a]; ok && len(p) == 2 && p[0] == "msg" && p[1] == "nl" {
+					// (Write does not consume its argument; the local is checked below not to be assigned inside the retry loop)
+					lineVar = a
+					return true
+				}
 				return a == "append("+msgVar+",'\\n')" || a == "append("+msgVar+",10)"
 			}
 			return false
@@ -158,6 +216,18 @@ func genRawSocket() {
 				break
 			}
 		}
+		if lineVar != "" {
+			ast.Inspect(inner, func(n ast.Node) bool {
+				if as, ok := n.(*ast.AssignStmt); ok {
+					for _, l := range as.Lhs {
+						if id, ok := l.(*ast.Ident); ok && id.Name == lineVar {
+							msgStable = false
+						}
+					}
+				}
+				return true
+			})
+		}
 		if !writeInLoop {
 			// a write before the retry loop, or none at all
 			ast.Inspect(fd.Body, func(n ast.Node) bool {
@@ -197,6 +267,12 @@ func genRawSocket() {
 				}
 				if breaks && cond != "err == nil" && retryBreak == "none" {
 					retryBreak = strings.ReplaceAll(strings.ReplaceAll(cond, "(", ""), ")", "")
+					// the attempt counter of the retry loop is written i, whatever it is called
+					if as, ok := inner.Init.(*ast.AssignStmt); ok && len(as.Lhs) == 1 {
+						if id, ok := as.Lhs[0].(*ast.Ident); ok && strings.HasPrefix(retryBreak, id.Name+" ") {
+							retryBreak = "i" + strings.TrimPrefix(retryBreak, id.Name)
+						}
+					}
 				}
 			}
 			return true
